@@ -1,4 +1,5 @@
 """VM world (C17): repeated serialize/deserialize histories on caller-held TVM stack values."""
+import random
 from detsim.core import HistoryWorld, Violation
 from refmodel import vm as refvm
 from refmodel.rcell import RCell
@@ -249,10 +250,12 @@ class VmWorld(HistoryWorld):
             if len(st.lib) >= 8:
                 return {'op': 'pop'}
             return {'op': 'push', 'item': gen_item(rng, 3)}
-        if r < 0.75:
+        if r < 0.72:
             return {'op': 'serialize'}
-        if r < 0.93:
+        if r < 0.88:
             return {'op': 'deserialize'}
+        if r < 0.95:
+            return {'op': 'caller_moves_on', 'seed': rng.getrandbits(16)}
         return {'op': 'pop'}
 
     def V(self, ctx, invariant, opkind, klass, msg):
@@ -278,6 +281,42 @@ class VmWorld(HistoryWorld):
             st.lib.pop()
             st.model.pop()
         st.last = None
+
+    def op_caller_moves_on(self, st, op, ctx):
+        """After a serialisation the caller goes on using ITS objects (writes to its builders, reads from its slices, extends its
+        tuples) and then drops them: the cell produced earlier must still parse to the values it was made from."""
+        if st.last is None:
+            return
+        r = random.Random(op['seed'])
+        touched = [0]
+
+        def use(v, depth=0):
+            if isinstance(v, Builder):
+                if len(v.refs) < 4 and r.random() < 0.7:
+                    call(v.store_ref, Builder().store_uint(r.getrandbits(8), 8).end_cell())
+                    touched[0] += 1
+                if v.available_bits >= 3:
+                    call(v.store_uint, 5, 3)
+                    touched[0] += 1
+            elif isinstance(v, Slice):
+                if v.remaining_bits:
+                    call(v.load_bit)
+                    touched[0] += 1
+                if v.remaining_refs:
+                    call(v.load_ref)
+                    touched[0] += 1
+            elif isinstance(v, VmTuple) and depth < 6:
+                for x in list(v.list):
+                    use(x, depth + 1)
+                v.list.append(r.getrandbits(8))
+                touched[0] += 1
+        for v in st.lib:
+            use(v)
+        if touched[0]:
+            ctx.fault('caller-reuses-serialised-values')
+        # the caller's objects are dropped; fresh equal ones take their place so that model and library side stay in step
+        st.lib = [build_from_model(m) for m in st.model]
+        self.op_deserialize(st, op, ctx)
 
     def op_repair(self, st, op, ctx):
         strip_bad(st.lib, st.model)
